@@ -13,7 +13,7 @@ RULE = (
     "(graph signature, op-kind sequence) pairs whose history contains at least one derived read after an assignment"
 )
 REQUIRED = {"reads_derived": 2000, "reverts_partial": 50, "reverts_full": 100, "clones": 100, "quiescent_checks": 1000,
-            "model_histories": 10, "reads_unset_raised": 20, "many_path_graphs": 50, "weighted_assignments": 200, "histories_on_unusual_scales": 50, "refused_assignments": 300, "left_broadcast_partial_reverts": 100}
+            "model_histories": 10, "reads_unset_raised": 20, "many_path_graphs": 50, "weighted_assignments": 200, "histories_on_unusual_scales": 50, "refused_assignments": 300, "left_broadcast_partial_reverts": 100, "copy_fork_isolation_checks": 50}
 ASSUMPTIONS = [
     "the documented precondition of a partial revert is respected by the generator (only individual-wise nodes are read between an "
     "assignment and a per-individual revert); individual-wise = no ancestor aggregates over individuals (toy: by construction; "
@@ -94,6 +94,58 @@ def _left_broadcast_reverts(spec, ctx):
                     break
 
 
+def _copy_fork_isolation(spec, ctx):
+    """Fork strategy COPY (documented purpose: the snapshot shares no memory with the values it was taken from): the caller recycles, in place,
+    the buffer of the value that was replaced; a revert must bring back the numbers the state held, for plain and weighted values alike."""
+    import torch
+
+    from leaspy.utils.weighted_tensor import WeightedTensor
+    from leaspy.variables.dag import VariablesDAG
+    from leaspy.variables.specs import DataVariable, LinkedVariable
+    from leaspy.variables.state import State, StateForkType
+    from vf import stateharness as sh
+
+    dag = VariablesDAG.from_dict({"x": DataVariable(), "t": DataVariable(), "m": LinkedVariable(lambda *, x, t: x * t), "s": LinkedVariable(lambda *, m: (m * 1.0).sum())})
+    for j in range(60):
+        r = ctx.rng("copy-fork", spec["k"], j)
+        n = int(r.integers(1, 6))
+        kind_ = ("plain", "weighted-no-weights", "weighted")[j % 3]
+
+        def mk(vals):
+            v = torch.tensor(vals, dtype=torch.float32)
+            if kind_ == "plain":
+                return v
+            return WeightedTensor(v, None if kind_ == "weighted-no-weights" else torch.tensor(r.random(n) < 0.8))
+
+        x0_vals, x1_vals = r.normal(size=n), r.normal(size=n)
+        st = State(dag, auto_fork_type=StateForkType.COPY)
+        x0 = mk(x0_vals)
+        with st.auto_fork(None):
+            st["x"] = x0
+            st["t"] = torch.tensor(r.normal(size=n), dtype=torch.float32)
+        ref_m, ref_s = st["m"], st["s"]
+        want_m = (ref_m.weighted_value if isinstance(ref_m, WeightedTensor) else ref_m).clone()
+        want_s = (ref_s.weighted_value if isinstance(ref_s, WeightedTensor) else ref_s).clone()
+        st["x"] = mk(x1_vals)  # proposal under COPY fork
+        st["m"]
+        buf = x0.value if isinstance(x0, WeightedTensor) else x0
+        buf.fill_(7.0)  # the caller recycles its old buffer
+        st.revert()
+        ctx.evaluated()
+        ctx.count("copy_fork_isolation_checks")
+        case = {"index": -1000 - j, "kind": "copy-fork-isolation", "value_kind": kind_}
+        gx = st["x"]
+        gx = gx.value if isinstance(gx, WeightedTensor) else gx
+        gm, gs = st["m"], st["s"]
+        gm = gm.weighted_value if isinstance(gm, WeightedTensor) else gm
+        gs = gs.weighted_value if isinstance(gs, WeightedTensor) else gs
+        if not sh.same(gx, torch.tensor(x0_vals, dtype=torch.float32)):
+            ctx.violation("state/independent-value-wrong-after-revert", f"fork strategy COPY, {kind_} value: after the rejection the variable holds numbers written by the "
+                          "caller into its old buffer, not the value the state held before the proposal", case, got=sh.brief(gx))
+        elif not sh.same(gm, want_m) or not sh.same(gs, want_s):
+            ctx.violation("state/stale-cache-after-revert", f"fork strategy COPY, {kind_} value: derived values after the rejection differ from those before the proposal", case)
+
+
 def run_shard(spec, ctx):
     import torch
 
@@ -111,6 +163,8 @@ def run_shard(spec, ctx):
 
     if kind == "toy" and spec["k"] % 4 == 0:
         _left_broadcast_reverts(spec, ctx)
+    if kind == "toy" and spec["k"] % 4 == 1:
+        _copy_fork_isolation(spec, ctx)
     for i in ctx.cases(spec["n"]):
         rng = ctx.rng(kind, spec["k"], i)
         case = {"index": i, "kind": kind}
